@@ -147,4 +147,5 @@ static inline uint64_t fifo_cap_o(fifo_cache o) { return fifo_cap(&o); }
 static inline uint64_t fifo_val_o(fifo_cache o, uint64_t k) { return fifo_val(&o, k); }
 static inline uint64_t fifo_key_of_node_o(fifo_cache o, cstl_iter n) { return fifo_key_of_node(&o, n); }
 static inline uint64_t fifo_entry_key_o(fifo_cache o, cstl_iter kp) { return fifo_entry_key(&o, kp); }
+static inline bool fifo_view_eq(const fifo_cache *a, const fifo_cache *b, uint64_t g) { return fifo_vw_same(fifo_view(a, g), fifo_view(b, g)); }
 #endif
